@@ -303,6 +303,7 @@ def run_unit(component, seed, count, tag=''):
 def code_props(code):
     table = {1302: ['C13', 'C08'], 1307: ['C13', 'C06'], 1313: ['C13', 'C11'], 1315: ['C13', 'C11'], 1103: ['C11', 'C13'],
              602: ['C06', 'C05'], 603: ['C06', 'C05'], 901: ['C09', 'C15'], 1104: ['C11'], 1105: ['C11'],
+             1203: ['C12', 'C14'], 1204: ['C12', 'C14'],
              611: ['C06', 'C09'], 612: ['C06', 'C05'], 631: ['C06', 'C05', 'C13'], 632: ['C06', 'C05'], 633: ['C05', 'C06'],
              811: ['C08', 'C09'], 812: ['C09', 'C10', 'C03'], 813: ['C08', 'C10'], 814: ['C08'], 815: ['C08', 'C09'], 816: ['C09', 'C03', 'C08'],
              821: ['C09'], 822: ['C09', 'C07']}
